@@ -29,6 +29,7 @@ const (
 	kHotQPS            // hotspot QPS: token counters kept
 	kHotConc           // hotspot concurrency: per-value counters kept
 	kCustomCb          // circuit breaker of a strategy registered by the user (SetCircuitBreakerGenerator): its object is kept
+	kCustomHot         // hot-parameter rule of a control behaviour registered by the user (SetTrafficShapingGenerator)
 	nKinds
 )
 
@@ -55,7 +56,7 @@ func (P) Engine() string { return "E1" }
 
 func (P) Describe() harness.Description {
 	return harness.Description{
-		MustHit: []string{"rule_modified_neutrally_keeps_counters", "unchanged_rule_listed_twice", "reload_compound", "reload_whole_set", "reload_per_resource", "reload_reorders", "reload_modifies_other_with_same_stat_params", "trace_has_block_and_admit", "modified_rule_keeps_statistics", "modified_breaker_rule_compared_over_whole_history", "breaker_of_a_user_registered_strategy", "twin_rule_added_then_original_removed"},
+		MustHit: []string{"rule_modified_neutrally_keeps_counters", "unchanged_rule_listed_twice", "reload_compound", "reload_whole_set", "reload_per_resource", "reload_reorders", "reload_modifies_other_with_same_stat_params", "trace_has_block_and_admit", "modified_rule_keeps_statistics", "modified_breaker_rule_compared_over_whole_history", "breaker_of_a_user_registered_strategy", "twin_rule_added_then_original_removed", "hot_parameter_rule_of_a_user_registered_behaviour"},
 		Level:   "exploration",
 		Rule: "case = (kind of the unchanged rule R: flow throttling / warm-up / reject with a private window, circuit breaker (built-in strategy, or a strategy registered by the user whose breaker keeps all state in its object), hotspot QPS, hotspot concurrency; 0-2 never-blocking rules of the same module on the same resource; 20-80 traffic ops (requests with arguments, holds, completions with errors, ticks) with 1-4 reloads inserted, each a compound of 1-3 edits: each keeps R field-for-field identical (fresh object) and adds / removes / modifies (also with unchanged statistic parameters) / reorders the others, or duplicates R where that is behaviour-neutral; whole-set and per-resource paths). " +
 			"Run A executes the history without the reloads, run B with them, after a full reset of process-global state; the decision traces (admit / block type / requested wait) on R's resource must be identical. A second oracle modifies R itself keeping its statistic parameters (private-window flow rule: threshold change) and requires the decisions to equal a model whose window keeps the pre-reload counts. " +
@@ -173,6 +174,9 @@ func cbOther(cfg *Cfg, p int, i int) *cb.Rule {
 }
 
 func hotR(cfg *Cfg) *hotspot.Rule {
+	if cfg.Kind == kCustomHot {
+		return &hotspot.Rule{ID: "R", Resource: res, MetricType: hotspot.QPS, ControlBehavior: latchBehavior, ParamIndex: 0, Threshold: int64(cfg.P1), DurationInSec: 1, BurstCount: int64(cfg.P2)}
+	}
 	if cfg.Kind == kHotQPS {
 		return &hotspot.Rule{ID: "R", Resource: res, MetricType: hotspot.QPS, ControlBehavior: hotspot.Reject, ParamIndex: 0, Threshold: int64(cfg.P1), BurstCount: int64(cfg.P2 - 1), DurationInSec: 2}
 	}
@@ -180,6 +184,9 @@ func hotR(cfg *Cfg) *hotspot.Rule {
 }
 
 func hotOther(cfg *Cfg, p int, i int) *hotspot.Rule {
+	if cfg.Kind == kCustomHot {
+		return &hotspot.Rule{ID: fmt.Sprintf("o%d", i), Resource: res, MetricType: hotspot.QPS, ControlBehavior: hotspot.Reject, ParamIndex: 0, Threshold: 1000000 + int64(p), DurationInSec: 1}
+	}
 	r := hotR(cfg)
 	r.ID = fmt.Sprintf("o%d", i)
 	r.Threshold = 1000000 + int64(p) // same statistic parameters as R, never blocks
@@ -352,6 +359,16 @@ func run(c *harness.Case, cfg *Cfg, o *harness.Outcome, withReloads bool, preRet
 			_ = cb.RemoveCircuitBreakerGenerator(latchStrategy)
 		}()
 		o.Probe("breaker_of_a_user_registered_strategy")
+	}
+	if cfg.Kind == kCustomHot {
+		_ = hotspot.SetTrafficShapingGenerator(latchBehavior, func(r *hotspot.Rule, _ *hotspot.ParamsMetric) hotspot.TrafficShapingController {
+			return &latchHot{rule: r, seen: map[interface{}]int64{}}
+		})
+		defer func() {
+			_, _ = hotspot.LoadRules(nil)
+			_ = hotspot.RemoveTrafficShapingGenerator(latchBehavior)
+		}()
+		o.Probe("hot_parameter_rule_of_a_user_registered_behaviour")
 	}
 	if cfg.Kind == kBreaker {
 		cb.ClearStateChangeListeners()
@@ -702,6 +719,32 @@ func execTwin(cfg *Cfg, o *harness.Outcome) {
 		o.Fail("C14.unchanged-rule-took-over-state-of-removed-rule", 0, "rule X (kind %d) was driven until it held back the next request; rule Y, a field-for-field copy under its own ID, was added (listed %s X) and has never seen a request; then X was removed by a load that kept Y unchanged. The next request: admitted=%v wait=%v - Y decided it with the state of the removed rule X instead of its own", cfg.Kind, map[bool]string{true: "before", false: "after"}[yFirst], adm, wait)
 	}
 }
+
+// latchHot is a hot-parameter controller of a control behaviour the library does not know: each value may pass
+// Threshold times, ever. All of its state lives in the object.
+const latchBehavior hotspot.ControlBehavior = 7
+
+type latchHot struct {
+	rule *hotspot.Rule
+	seen map[interface{}]int64
+}
+
+func (l *latchHot) PerformChecking(arg interface{}, batchCount int64) *base.TokenResult {
+	if l.seen[arg] >= l.rule.Threshold {
+		return base.NewTokenResultBlockedWithCause(base.BlockTypeHotSpotParamFlow, "latched", l.rule, l.seen[arg])
+	}
+	l.seen[arg]++
+	return nil
+}
+func (l *latchHot) BoundParamIndex() int { return l.rule.ParamIndex }
+func (l *latchHot) ExtractArgs(ctx *base.EntryContext) interface{} {
+	if a := ctx.Input.Args; len(a) > 0 {
+		return a[0]
+	}
+	return nil
+}
+func (l *latchHot) BoundMetric() *hotspot.ParamsMetric { return nil }
+func (l *latchHot) BoundRule() *hotspot.Rule           { return l.rule }
 
 type openRec struct{ f func() }
 
